@@ -850,7 +850,7 @@ class CircuitOperation(ops.Operation):
     def _resolve_parameters_(
         self, resolver: cirq.ParamResolver, recursive: bool
     ) -> cirq.CircuitOperation:
-        resolved = self.with_params(resolver.param_dict, recursive)
+        resolved = self.with_params(resolver, recursive)
         # repetitions can resolve to a float, but this is ok since constructor converts to
         # nearby int.
         return resolved.replace(
